@@ -17,6 +17,9 @@ import (
 )
 
 var (
+	// ErrDuplicateBlockTx means a block contained the same relevant tx more than once.
+	ErrDuplicateBlockTx = errors.New("Duplicate Block Tx")
+
 	errBlockDownloadCancelled = errors.New("Block Download Cancelled")
 )
 
@@ -345,6 +348,7 @@ func (bd *BlockDownloader) handleBlock(ctx context.Context, header *wire.BlockHe
 
 	// Process block txs
 	var blockTxIDs []bitcoin.Hash32
+	relevantTxIDs := make(map[bitcoin.Hash32]bool)
 
 	merkleTree := merkle_proof.NewMerkleTree(true)
 	var coinbaseTx *wire.MsgTx
@@ -366,6 +370,15 @@ func (bd *BlockDownloader) handleBlock(ctx context.Context, header *wire.BlockHe
 		}
 
 		if isRelevant {
+			if relevantTxIDs[txid] {
+				// A tx can't be in a block twice. Repeating the last txs of a block is a known way
+				// to build a different tx list with the same merkle root.
+				for range txChannel { // flush channel
+				}
+				return errors.Wrap(ErrDuplicateBlockTx, txid.String())
+			}
+			relevantTxIDs[txid] = true
+
 			blockTxIDs = append(blockTxIDs, txid)
 			merkleTree.AddMerkleProof(txid)
 		}
